@@ -161,9 +161,29 @@ def arrange_lists(case):
                     yield e[3]["arrange"]
 
 
+def const_columns(case):
+    """names defined by a mutate whose expression mentions no column"""
+    out = set()
+    for p in walk_pipes(case["pipe"]):
+        for st in p["steps"]:
+            if st[0] == "mutate":
+                out |= {n for n, e in st[1] if not mentions_col(e)}
+    return out
+
+
 def m_F19(case, backend, f):
-    return (backend == "polars" and f.get("exc") == "ShapeError"
-            and any(not mentions_col(o[1]) for l in arrange_lists(case) for o in l))
+    """arrange by a constant expression / constant column: Polars ShapeError; SQL renders `ORDER BY <n>`,
+    which is a column position"""
+    consts = const_columns(case)
+
+    def is_const_key(o):
+        e = o[1]
+        return (not mentions_col(e)) or (e[0] in ("col", "c") and e[-1] in consts)
+    if not any(is_const_key(o) for l in arrange_lists(case) for o in l):
+        return False
+    if backend == "polars":
+        return f.get("exc") == "ShapeError"
+    return (f.get("exc") == "OperationalError" and "ORDER BY term" in (f.get("msg") or "")) or f["kind"] == "rows"
 
 
 def m_F20(case, backend, f):
